@@ -252,7 +252,7 @@ class SymArray(np.ndarray):
                 shp = [1 if i in axes else a.shape[i] for i in range(a.ndim)]
                 res = res.reshape(shp)
             if res.ndim == 0:
-                return res[()]
+                return SymScalar.wrap(res[()])     # numpy returns a numpy scalar here
             return res.view(SymArray)
         raise UnsupportedSymbolic(f'ufunc {name} method {method}')
 
@@ -436,6 +436,9 @@ class SymScalar(np.float32):
             return self
         raise UnsupportedSymbolic('astype on a symbolic numpy scalar')
 
+    def __getitem__(self, idx):
+        return SymArray(self.payload)[idx]
+
     # ---- operators
     def _bin(self, o, f, swap=False):
         if isinstance(o, np.ndarray) and o.ndim > 0:
@@ -560,6 +563,8 @@ def _where(cond, x=None, y=None):
 
 def _count_nonzero(a, axis=None, **kw):
     a = plain(np.asarray(a, dtype=object))
+    if getattr(core.CUR, 'count_mode', None) == 'fork' and axis is None:
+        return int(sum(1 for v in a.ravel() if bool(_b(v))))      # concretised: forks per cell
     if getattr(core.CUR, 'logic', None) == 'QF_NRA':
         # keep integer-sorted terms out of pure real-arithmetic queries
         ints = np.frompyfunc(lambda v: SReal(core.If(_b(v).t, z3.RealVal(1), z3.RealVal(0))), 1, 1)(a)
